@@ -343,7 +343,9 @@ Definition spec (d : doc) : option itotals :=
                         end in
         let total := total1 - match included with Some ti => R ws ti | None => 0 end in
         let twt := total + R ws tax in
-        let payable := twt + match d_rounding d with Some r => R ws (toQ r) | None => 0 end in
+        (* a supplied totals.rounding is itself a presented total: rounded to the currency's decimals,
+           and that figure is what payable adds *)
+        let payable := twt + match d_rounding d with Some r => R ws (R c (toQ r)) | None => 0 end in
         let advs := map (s_advance (mkF twt ws)) (d_advances d) in
         let advances := s_opt_sum advs in
         let due := match advances with Some a => Some (payable - R ws (fq a)) | None => None end in
